@@ -90,6 +90,7 @@ type Interp struct {
 	initMode int // >0 while running a package initialiser (tolerant)
 	depth    int
 	curFrame *frame
+	sc       schedState
 
 	funcsRun map[*ssa.Function]int64
 	builtPkgs map[*ssa.Package]bool
@@ -125,6 +126,7 @@ func (in *Interp) resetPath(prefix []Decision) {
 	in.initMode = 0
 	in.depth = 0
 	in.curFrame = nil
+	in.schedReset()
 }
 
 func (in *Interp) replaying() bool { return len(in.trace) < len(in.prefix) }
@@ -839,7 +841,8 @@ func (in *Interp) visitInstr(fr *frame, instr ssa.Instruction) continuation {
 		panic(targetPanic{v: fr.get(instr.X)})
 
 	case *ssa.Send:
-		in.chanSend(fr.get(instr.Chan).(*Chan), fr.get(instr.X), true)
+		c, _ := fr.get(instr.Chan).(*Chan)
+		in.schedSend(c, fr.get(instr.X))
 
 	case *ssa.Store:
 		if sp, ok := fr.get(instr.Addr).(SymPtr); ok {
@@ -882,7 +885,11 @@ func (in *Interp) visitInstr(fr *frame, instr ssa.Instruction) continuation {
 
 	case *ssa.Go:
 		in.goCount++
-		if in.ex.cfg.RunGo {
+		if in.sc.on {
+			fn, args := in.prepareCall(fr, &instr.Call)
+			in.spawn(func() { in.call(nil, instr, fn, args) })
+			in.yield(nil, "go")
+		} else if in.ex.cfg.RunGo {
 			fn, args := in.prepareCall(fr, &instr.Call)
 			in.call(fr, instr, fn, args)
 			in.curFrame = fr
